@@ -1,1 +1,756 @@
-fn main() {}
+//! C20 — the response cache policy is never looser than the data it contains.
+//!
+//! Seam: `Response.cache_control` of `Schema::execute`, `BatchResponse::cache_control()`,
+//! `CacheControl::value()`.
+//!
+//! Harness schema (derive): seven object types `T0..T6`, type `Tk` carrying type-level hint k of
+//! {none, max_age 60, 30, 10, private, private+max_age 10, no_cache}; every type has fields `h0..h6`
+//! (field-level hint j) and `x` (the interface field, with yet another hint). `Query` has scalar
+//! fields `s0..s6` (hint j), object fields `o0..o6: Tk`, `i: I` (interface implemented by all seven)
+//! and `u: U` (union of all seven). The runtime type behind `i` / `u` is the "world".
+//!
+//! Space: every document with ≤ 4 (quick) / ≤ 5 (thorough) selection nodes (fields, `__typename`,
+//! inline fragments on object types and on `I`) over that schema, selection sets in canonical
+//! order and in reversed order, × every runtime type of every abstract field that occurs, × both
+//! validation modes. Plus all pairs and triples over the 2×5 policy domain for the combination laws.
+//!
+//! Reference (written from the statement): the policy must be ⊑ the meet of the hints of every
+//! (object type, field) whose data the response contains — private if any is private, no-cache if any
+//! is no-cache, else max-age ≤ every positive max-age; exactly that meet for object-only selections.
+
+use agv_engine::record::{Cx, Violation};
+use agv_engine::sched::drive;
+use async_graphql::*;
+use rayon::prelude::*;
+use serde_json::json;
+
+// ---------------------------------------------------------------------------------------------
+// policies (reference side: plain tuples; 0 = no max-age hint, -1 = no-cache — the crate's encoding,
+// `CacheControl::max_age` doc: "`-1` represent `no-cache`, default is 0")
+
+#[derive(Clone, Copy, PartialEq, Eq, Debug, Hash)]
+struct P {
+    private: bool,
+    age: i32,
+}
+const NONE: P = P { private: false, age: 0 };
+/// hint index → policy. 0 none, 1 max_age 60, 2 max_age 30, 3 max_age 10, 4 private, 5 private+10, 6 no_cache
+const HINTS: [P; 7] = [
+    NONE,
+    P { private: false, age: 60 },
+    P { private: false, age: 30 },
+    P { private: false, age: 10 },
+    P { private: true, age: 0 },
+    P { private: true, age: 10 },
+    P { private: false, age: -1 },
+];
+const HINT_NAMES: [&str; 7] = ["none", "max_age=60", "max_age=30", "max_age=10", "private", "private,max_age=10", "no_cache"];
+/// field hint of `Tk.x`
+const XH: [usize; 7] = [4, 0, 6, 5, 1, 3, 2];
+
+/// The combination of the statement: private if any private; no-cache if any no-cache; else the
+/// smallest positive max-age (none if there is none).
+fn meet(a: P, b: P) -> P {
+    P {
+        private: a.private || b.private,
+        age: if a.age == -1 || b.age == -1 {
+            -1
+        } else if a.age > 0 && b.age > 0 {
+            a.age.min(b.age)
+        } else {
+            a.age.max(b.age)
+        },
+    }
+}
+/// `a` is at least as restrictive as the single hint `c`.
+fn covers(a: P, c: P) -> (bool, bool, bool) {
+    let scope_ok = !c.private || a.private;
+    let nc_ok = c.age != -1 || a.age == -1;
+    let age_ok = c.age <= 0 || a.age == -1 || (a.age > 0 && a.age <= c.age);
+    (scope_ok, nc_ok, age_ok)
+}
+fn from_cc(c: CacheControl) -> P {
+    P { private: !c.public, age: c.max_age }
+}
+fn to_cc(p: P) -> CacheControl {
+    CacheControl { public: !p.private, max_age: p.age }
+}
+fn pj(p: P) -> serde_json::Value {
+    json!({"public": !p.private, "max_age": p.age})
+}
+
+// ---------------------------------------------------------------------------------------------
+// harness schema
+
+macro_rules! obj {
+    ($name:ident, [$($tattr:tt)*], [$($xattr:tt)*]) => {
+        struct $name;
+        #[Object($($tattr)*)]
+        impl $name {
+            $($xattr)*
+            async fn x(&self) -> i32 { 1 }
+            async fn h0(&self) -> i32 { 1 }
+            #[graphql(cache_control(max_age = 60))]
+            async fn h1(&self) -> i32 { 1 }
+            #[graphql(cache_control(max_age = 30))]
+            async fn h2(&self) -> i32 { 1 }
+            #[graphql(cache_control(max_age = 10))]
+            async fn h3(&self) -> i32 { 1 }
+            #[graphql(cache_control(private))]
+            async fn h4(&self) -> i32 { 1 }
+            #[graphql(cache_control(private, max_age = 10))]
+            async fn h5(&self) -> i32 { 1 }
+            #[graphql(cache_control(no_cache))]
+            async fn h6(&self) -> i32 { 1 }
+        }
+    };
+}
+// type hint k; x hint XH[k]
+obj!(T0, [], [#[graphql(cache_control(private))]]);
+obj!(T1, [cache_control(max_age = 60)], []);
+obj!(T2, [cache_control(max_age = 30)], [#[graphql(cache_control(no_cache))]]);
+obj!(T3, [cache_control(max_age = 10)], [#[graphql(cache_control(private, max_age = 10))]]);
+obj!(T4, [cache_control(private)], [#[graphql(cache_control(max_age = 60))]]);
+obj!(T5, [cache_control(private, max_age = 10)], [#[graphql(cache_control(max_age = 10))]]);
+obj!(T6, [cache_control(no_cache)], [#[graphql(cache_control(max_age = 30))]]);
+
+#[derive(Interface)]
+#[graphql(field(name = "x", ty = "i32"))]
+enum I {
+    T0(T0),
+    T1(T1),
+    T2(T2),
+    T3(T3),
+    T4(T4),
+    T5(T5),
+    T6(T6),
+}
+#[derive(Union)]
+enum U {
+    T0(T0),
+    T1(T1),
+    T2(T2),
+    T3(T3),
+    T4(T4),
+    T5(T5),
+    T6(T6),
+}
+
+/// Runtime type behind `i` and behind `u`.
+#[derive(Clone, Copy)]
+struct World {
+    i: usize,
+    u: usize,
+}
+
+struct Query;
+#[Object]
+impl Query {
+    async fn s0(&self) -> i32 {
+        1
+    }
+    #[graphql(cache_control(max_age = 60))]
+    async fn s1(&self) -> i32 {
+        1
+    }
+    #[graphql(cache_control(max_age = 30))]
+    async fn s2(&self) -> i32 {
+        1
+    }
+    #[graphql(cache_control(max_age = 10))]
+    async fn s3(&self) -> i32 {
+        1
+    }
+    #[graphql(cache_control(private))]
+    async fn s4(&self) -> i32 {
+        1
+    }
+    #[graphql(cache_control(private, max_age = 10))]
+    async fn s5(&self) -> i32 {
+        1
+    }
+    #[graphql(cache_control(no_cache))]
+    async fn s6(&self) -> i32 {
+        1
+    }
+    async fn o0(&self) -> T0 {
+        T0
+    }
+    async fn o1(&self) -> T1 {
+        T1
+    }
+    async fn o2(&self) -> T2 {
+        T2
+    }
+    async fn o3(&self) -> T3 {
+        T3
+    }
+    async fn o4(&self) -> T4 {
+        T4
+    }
+    async fn o5(&self) -> T5 {
+        T5
+    }
+    async fn o6(&self) -> T6 {
+        T6
+    }
+    async fn i(&self, ctx: &Context<'_>) -> I {
+        match ctx.data_unchecked::<World>().i {
+            0 => I::T0(T0),
+            1 => I::T1(T1),
+            2 => I::T2(T2),
+            3 => I::T3(T3),
+            4 => I::T4(T4),
+            5 => I::T5(T5),
+            _ => I::T6(T6),
+        }
+    }
+    async fn u(&self, ctx: &Context<'_>) -> U {
+        match ctx.data_unchecked::<World>().u {
+            0 => U::T0(T0),
+            1 => U::T1(T1),
+            2 => U::T2(T2),
+            3 => U::T3(T3),
+            4 => U::T4(T4),
+            5 => U::T5(T5),
+            _ => U::T6(T6),
+        }
+    }
+}
+
+type S = Schema<Query, EmptyMutation, EmptySubscription>;
+fn schemas() -> [S; 2] {
+    [
+        Schema::build(Query, EmptyMutation, EmptySubscription).finish(),
+        Schema::build(Query, EmptyMutation, EmptySubscription).validation_mode(ValidationMode::Fast).finish(),
+    ]
+}
+const MODES: [&str; 2] = ["strict", "fast"];
+
+// ---------------------------------------------------------------------------------------------
+// documents: a tiny grammar over the schema
+
+/// static scope of a selection set
+#[derive(Clone, Copy, PartialEq, Eq, Debug, Hash)]
+enum Scope {
+    Q,
+    T(usize),
+    /// field of interface type `I`
+    I,
+    /// `... on I` inside an object / union selection
+    IFrag,
+    U,
+}
+
+#[derive(Clone, Debug, PartialEq, Eq, Hash)]
+enum Sel {
+    /// scalar field or `__typename`
+    Leaf(&'static str),
+    /// object-valued field of Query with its static scope
+    Comp(&'static str, Scope, Vec<Sel>),
+    /// inline fragment
+    Frag(Scope, Vec<Sel>),
+}
+
+const S_NAMES: [&str; 7] = ["s0", "s1", "s2", "s3", "s4", "s5", "s6"];
+const H_NAMES: [&str; 7] = ["h0", "h1", "h2", "h3", "h4", "h5", "h6"];
+const O_NAMES: [&str; 7] = ["o0", "o1", "o2", "o3", "o4", "o5", "o6"];
+
+#[derive(Clone, Copy)]
+enum Head {
+    Leaf(&'static str),
+    Comp(&'static str, Scope),
+    Frag(Scope),
+}
+
+fn heads(scope: Scope) -> Vec<Head> {
+    let mut v = Vec::new();
+    match scope {
+        Scope::Q => {
+            v.extend(S_NAMES.iter().map(|n| Head::Leaf(*n)));
+            v.push(Head::Leaf("__typename"));
+            v.extend((0..7).map(|k| Head::Comp(O_NAMES[k], Scope::T(k))));
+            v.push(Head::Comp("i", Scope::I));
+            v.push(Head::Comp("u", Scope::U));
+        }
+        Scope::T(k) => {
+            v.push(Head::Leaf("x"));
+            v.extend(H_NAMES.iter().map(|n| Head::Leaf(*n)));
+            v.push(Head::Leaf("__typename"));
+            v.push(Head::Frag(Scope::T(k)));
+            v.push(Head::Frag(Scope::IFrag));
+        }
+        Scope::I => {
+            v.push(Head::Leaf("x"));
+            v.push(Head::Leaf("__typename"));
+            v.extend((0..7).map(|k| Head::Frag(Scope::T(k))));
+        }
+        Scope::IFrag => {
+            v.push(Head::Leaf("x"));
+            v.push(Head::Leaf("__typename"));
+        }
+        Scope::U => {
+            v.push(Head::Leaf("__typename"));
+            v.extend((0..7).map(|k| Head::Frag(Scope::T(k))));
+            v.push(Head::Frag(Scope::IFrag));
+        }
+    }
+    v
+}
+
+/// All non-empty selection sets for `scope` with exactly `n` nodes, heads in canonical (strictly
+/// increasing) order, each head at most once.
+fn sets_exact(scope: Scope, n: usize) -> Vec<Vec<Sel>> {
+    fn go(scope: Scope, hs: &[Head], start: usize, n: usize, cur: &mut Vec<Sel>, out: &mut Vec<Vec<Sel>>) {
+        if n == 0 {
+            if !cur.is_empty() {
+                out.push(cur.clone());
+            }
+            return;
+        }
+        for idx in start..hs.len() {
+            match hs[idx] {
+                Head::Leaf(name) => {
+                    cur.push(Sel::Leaf(name));
+                    go(scope, hs, idx + 1, n - 1, cur, out);
+                    cur.pop();
+                }
+                Head::Comp(name, child) => {
+                    for c in 1..n {
+                        for sub in sets_exact(child, c) {
+                            cur.push(Sel::Comp(name, child, sub));
+                            go(scope, hs, idx + 1, n - 1 - c, cur, out);
+                            cur.pop();
+                        }
+                    }
+                }
+                Head::Frag(child) => {
+                    for c in 1..n {
+                        for sub in sets_exact(child, c) {
+                            cur.push(Sel::Frag(child, sub));
+                            go(scope, hs, idx + 1, n - 1 - c, cur, out);
+                            cur.pop();
+                        }
+                    }
+                }
+            }
+        }
+    }
+    let hs = heads(scope);
+    let mut out = Vec::new();
+    go(scope, &hs, 0, n, &mut Vec::new(), &mut out);
+    out
+}
+
+fn scope_type_name(s: Scope) -> String {
+    match s {
+        Scope::Q => "Query".into(),
+        Scope::T(k) => format!("T{k}"),
+        Scope::I | Scope::IFrag => "I".into(),
+        Scope::U => "U".into(),
+    }
+}
+
+fn print_set(sels: &[Sel], reversed: bool, out: &mut String) {
+    out.push('{');
+    let order: Vec<&Sel> = if reversed { sels.iter().rev().collect() } else { sels.iter().collect() };
+    for (n, s) in order.into_iter().enumerate() {
+        if n > 0 {
+            out.push(' ');
+        }
+        match s {
+            Sel::Leaf(name) => out.push_str(name),
+            Sel::Comp(name, _, sub) => {
+                out.push_str(name);
+                print_set(sub, reversed, out);
+            }
+            Sel::Frag(on, sub) => {
+                out.push_str("... on ");
+                out.push_str(&scope_type_name(*on));
+                print_set(sub, reversed, out);
+            }
+        }
+    }
+    out.push('}');
+}
+
+fn uses(sels: &[Sel], name: &str) -> bool {
+    sels.iter().any(|s| match s {
+        Sel::Leaf(_) => false,
+        Sel::Comp(n, _, sub) => *n == name || uses(sub, name),
+        Sel::Frag(_, sub) => uses(sub, name),
+    })
+}
+fn mentions_abstract(sels: &[Sel]) -> bool {
+    sels.iter().any(|s| match s {
+        Sel::Leaf(_) => false,
+        Sel::Comp(_, sc, sub) => matches!(sc, Scope::I | Scope::U) || mentions_abstract(sub),
+        Sel::Frag(sc, sub) => matches!(sc, Scope::IFrag) || mentions_abstract(sub),
+    })
+}
+
+// ---------------------------------------------------------------------------------------------
+// reference: which (object type, field) data does the response contain?
+
+#[derive(Clone, Debug)]
+struct Contribution {
+    what: String,
+    policy: P,
+    /// a static walk of the document meets this hint (the selection is made in the scope of exactly this object type)
+    statically_visible: bool,
+    /// static scope through which the data is reached when not visible
+    via: &'static str,
+}
+
+struct Walk {
+    contribs: Vec<Contribution>,
+}
+
+impl Walk {
+    /// Selections applied to an object whose runtime type is `Tk`, made in static scope `scope`.
+    /// `type_seen`: a selection set whose static type is `Tk` encloses this one.
+    fn object(&mut self, k: usize, scope: Scope, type_seen: bool, sels: &[Sel], data: &mut serde_json::Map<String, serde_json::Value>) {
+        let via = match scope {
+            Scope::I | Scope::IFrag => "interface",
+            Scope::U => "union",
+            _ => "object",
+        };
+        let here = scope == Scope::T(k);
+        let seen = type_seen || here;
+        for s in sels {
+            match s {
+                Sel::Leaf(name) => {
+                    // the response contains data of an object of type Tk
+                    self.contribs.push(Contribution { what: format!("type T{k} ({})", HINT_NAMES[k]), policy: HINTS[k], statically_visible: seen, via });
+                    if *name == "__typename" {
+                        data.insert(name.to_string(), json!(format!("T{k}")));
+                    } else {
+                        let h = if *name == "x" { XH[k] } else { H_NAMES.iter().position(|n| n == name).unwrap() };
+                        self.contribs.push(Contribution { what: format!("field T{k}.{name} ({})", HINT_NAMES[h]), policy: HINTS[h], statically_visible: here, via });
+                        data.insert(name.to_string(), json!(1));
+                    }
+                }
+                Sel::Frag(on, sub) => match on {
+                    Scope::T(j) if *j == k => self.object(k, Scope::T(k), seen, sub, data),
+                    Scope::T(_) => {}
+                    Scope::IFrag => self.object(k, Scope::IFrag, seen, sub, data),
+                    _ => unreachable!(),
+                },
+                Sel::Comp(..) => unreachable!("objects have no composite fields in this schema"),
+            }
+        }
+    }
+
+    fn query(&mut self, world: World, sels: &[Sel], data: &mut serde_json::Map<String, serde_json::Value>) {
+        for s in sels {
+            match s {
+                Sel::Leaf("__typename") => {
+                    data.insert("__typename".into(), json!("Query"));
+                }
+                Sel::Leaf(name) => {
+                    let h = S_NAMES.iter().position(|n| n == name).unwrap();
+                    self.contribs.push(Contribution { what: format!("field Query.{name} ({})", HINT_NAMES[h]), policy: HINTS[h], statically_visible: true, via: "object" });
+                    data.insert(name.to_string(), json!(1));
+                }
+                Sel::Comp(name, scope, sub) => {
+                    let k = match scope {
+                        Scope::T(k) => *k,
+                        Scope::I => world.i,
+                        Scope::U => world.u,
+                        _ => unreachable!(),
+                    };
+                    let mut inner = serde_json::Map::new();
+                    self.object(k, *scope, false, sub, &mut inner);
+                    data.insert(name.to_string(), serde_json::Value::Object(inner));
+                }
+                Sel::Frag(..) => unreachable!(),
+            }
+        }
+    }
+}
+
+fn sorted(v: &serde_json::Value) -> serde_json::Value {
+    match v {
+        serde_json::Value::Object(m) => {
+            let mut ks: Vec<_> = m.keys().cloned().collect();
+            ks.sort();
+            serde_json::Value::Object(ks.into_iter().map(|k| (k.clone(), sorted(&m[&k]))).collect())
+        }
+        other => other.clone(),
+    }
+}
+
+// ---------------------------------------------------------------------------------------------
+
+fn header_consistent(p: P) -> Result<(), String> {
+    let text = to_cc(p).value();
+    let t = text.clone().unwrap_or_default();
+    let parts: Vec<&str> = t.split(',').map(|s| s.trim()).filter(|s| !s.is_empty()).collect();
+    let has_private = parts.contains(&"private");
+    let has_nc = parts.contains(&"no-cache");
+    let ages: Vec<i32> = parts.iter().filter_map(|s| s.strip_prefix("max-age=")).filter_map(|s| s.parse().ok()).collect();
+    let unknown = parts.iter().any(|s| *s != "private" && *s != "no-cache" && !s.starts_with("max-age="));
+    let ok = has_private == p.private
+        && has_nc == (p.age == -1)
+        && (if p.age > 0 { ages == vec![p.age] } else { ages.is_empty() })
+        && !unknown
+        && (text.is_none() == (!p.private && p.age == 0));
+    if ok {
+        Ok(())
+    } else {
+        Err(format!("policy {:?} renders as header {:?}", pj(p).to_string(), text))
+    }
+}
+
+fn resp_with(p: P) -> Response {
+    Response::new(Value::Null).cache_control(to_cc(p))
+}
+fn batch(ps: &[P]) -> P {
+    from_cc(BatchResponse::Batch(ps.iter().map(|p| resp_with(*p)).collect()).cache_control())
+}
+
+fn merge_laws(cx: &Cx) {
+    let mut dom = Vec::new();
+    for private in [false, true] {
+        for age in [0, 10, 30, 60, -1] {
+            dom.push(P { private, age });
+        }
+    }
+    let law = |cx: &Cx, class: &str, detail: String, case: serde_json::Value| {
+        cx.violation(Violation::new(class, detail, case).key("part", "merge-laws"));
+    };
+    for &a in &dom {
+        cx.eval();
+        if let Err(e) = header_consistent(a) {
+            law(cx, "header-inconsistent", e, json!({"part": "header", "a": pj(a)}));
+        }
+        let single = from_cc(BatchResponse::Single(resp_with(a)).cache_control());
+        let one = batch(&[a]);
+        let twice = batch(&[a, a]);
+        if single != a || one != a {
+            law(cx, "batch-of-one-differs", format!("policy {} : Single -> {}, Batch[a] -> {}", pj(a), pj(single), pj(one)), json!({"part": "single", "a": pj(a)}));
+        }
+        if twice != a {
+            law(cx, "merge-not-idempotent", format!("a·a = {} for a = {}", pj(twice), pj(a)), json!({"part": "idempotent", "a": pj(a)}));
+        }
+        cx.nontrivial(agv_engine::h64(&("dom", a)));
+        for &b in &dom {
+            cx.eval();
+            let ab = batch(&[a, b]);
+            let ba = batch(&[b, a]);
+            if ab != ba {
+                law(cx, "merge-not-commutative", format!("a·b = {} but b·a = {} for a = {}, b = {}", pj(ab), pj(ba), pj(a), pj(b)), json!({"part": "pair", "a": pj(a), "b": pj(b)}));
+            }
+            if ab != meet(a, b) {
+                law(cx, "merge-differs-from-statement", format!("a·b = {} but the statement's combination is {} for a = {}, b = {}", pj(ab), pj(meet(a, b)), pj(a), pj(b)), json!({"part": "pair", "a": pj(a), "b": pj(b)}));
+            }
+            cx.nontrivial(agv_engine::h64(&("pair", a, b)));
+            for &c in &dom {
+                cx.eval();
+                let left = batch(&[batch(&[a, b]), c]);
+                let right = batch(&[a, batch(&[b, c])]);
+                let flat = batch(&[a, b, c]);
+                if left != right || flat != left {
+                    law(
+                        cx,
+                        "merge-not-associative",
+                        format!("(a·b)·c = {}, a·(b·c) = {}, batch[a,b,c] = {} for a = {}, b = {}, c = {}", pj(left), pj(right), pj(flat), pj(a), pj(b), pj(c)),
+                        json!({"part": "triple", "a": pj(a), "b": pj(b), "c": pj(c)}),
+                    );
+                }
+                // every permutation of the batch gives the same policy
+                let perms = [[a, c, b], [b, a, c], [b, c, a], [c, a, b], [c, b, a]];
+                if perms.iter().any(|p| batch(p) != flat) {
+                    law(cx, "merge-not-commutative", format!("batch policy depends on the order of a = {}, b = {}, c = {}", pj(a), pj(b), pj(c)), json!({"part": "triple", "a": pj(a), "b": pj(b), "c": pj(c)}));
+                }
+            }
+        }
+    }
+    cx.extra("merge_law_domain", json!({"policies": dom.len(), "pairs": dom.len() * dom.len(), "triples": dom.len().pow(3)}));
+}
+
+fn run_doc(schema: &S, doc: &str, world: World) -> Result<Response, String> {
+    let req = Request::new(doc).data(world);
+    match agv_engine::catch_quiet(|| drive(schema.execute(req))) {
+        Ok(Some(r)) => Ok(r),
+        Ok(None) => Err("request future parked".into()),
+        Err(p) => Err(format!("panic: {p}")),
+    }
+}
+
+fn check_doc(cx: &Cx, schemas: &[S; 2], sels: &[Sel]) {
+    let wi: Vec<usize> = if uses(sels, "i") { (0..7).collect() } else { vec![0] };
+    let wu: Vec<usize> = if uses(sels, "u") { (0..7).collect() } else { vec![0] };
+    let object_only = !mentions_abstract(sels);
+    let mut texts = [String::new(), String::new()];
+    print_set(sels, false, &mut texts[0]);
+    print_set(sels, true, &mut texts[1]);
+    for &i in &wi {
+        for &u in &wu {
+            let world = World { i, u };
+            let mut w = Walk { contribs: Vec::new() };
+            let mut data = serde_json::Map::new();
+            w.query(world, sels, &mut data);
+            let expected = w.contribs.iter().fold(NONE, |acc, c| meet(acc, c.policy));
+            let expected_data = sorted(&serde_json::Value::Object(data));
+            let mut first: Option<P> = None;
+            for (mi, schema) in schemas.iter().enumerate() {
+                for (oi, text) in texts.iter().enumerate() {
+                    if oi == 1 && texts[1] == texts[0] {
+                        continue;
+                    }
+                    cx.eval();
+                    let case = json!({"document": text, "world": {"i": i, "u": u}, "mode": MODES[mi]});
+                    let resp = match run_doc(schema, text, world) {
+                        Ok(r) => r,
+                        Err(e) => {
+                            cx.violation(Violation::new("panic", format!("{text} : {e}"), case).key("part", "documents"));
+                            continue;
+                        }
+                    };
+                    if !resp.errors.is_empty() {
+                        cx.machinery_error(format!("generated document {text} is not valid: {:?}", resp.errors.iter().map(|e| &e.message).collect::<Vec<_>>()));
+                        return;
+                    }
+                    let got_data = sorted(&resp.data.clone().into_json().unwrap_or_default());
+                    if got_data != expected_data {
+                        cx.machinery_error(format!("reference disagrees about the data of {text} (world i=T{i}, u=T{u}): real {got_data}, reference {expected_data}"));
+                        return;
+                    }
+                    let actual = from_cc(resp.cache_control);
+                    if let Err(e) = header_consistent(actual) {
+                        cx.violation(Violation::new("header-inconsistent", e, case.clone()).key("part", "documents"));
+                    }
+                    let batch_policy = from_cc(BatchResponse::Single(resp).cache_control());
+                    if batch_policy != actual {
+                        cx.violation(Violation::new("batch-of-one-differs", format!("{text}: response policy {} but BatchResponse::Single reports {}", pj(actual), pj(batch_policy)), case.clone()).key("part", "documents"));
+                    }
+                    match first {
+                        None => first = Some(actual),
+                        Some(f) if f != actual => {
+                            cx.violation(
+                                Violation::new("policy-depends-on-selection-order-or-mode", format!("{} gives {} but {text} ({}) gives {}", texts[0], pj(f), MODES[mi], pj(actual)), case.clone())
+                                    .key("part", "documents"),
+                            );
+                        }
+                        _ => {}
+                    }
+                    // the oracle
+                    let bad: Vec<&Contribution> = w.contribs.iter().filter(|c| covers(actual, c.policy) != (true, true, true)).collect();
+                    if !bad.is_empty() {
+                        let all_runtime_only = bad.iter().all(|c| !c.statically_visible);
+                        let class = if all_runtime_only { "abstract-field-ignores-runtime-object-policy" } else { "policy-looser-than-data" };
+                        let mut via: Vec<&str> = bad.iter().map(|c| c.via).collect();
+                        via.sort();
+                        via.dedup();
+                        let (mut sc, mut nc, mut ag) = (true, true, true);
+                        for c in &bad {
+                            let (a, b, d) = covers(actual, c.policy);
+                            sc &= a;
+                            nc &= b;
+                            ag &= d;
+                        }
+                        let mut aspects = Vec::new();
+                        if !sc {
+                            aspects.push("scope")
+                        }
+                        if !nc {
+                            aspects.push("no-cache")
+                        }
+                        if !ag {
+                            aspects.push("max-age")
+                        }
+                        cx.extra_add(&format!("looser_cases/{class}/via={}/aspect={}", via.join("+"), aspects.join("+")), 1);
+                        let mut whats: Vec<String> = bad.iter().map(|c| c.what.clone()).collect();
+                        whats.sort();
+                        whats.dedup();
+                        cx.violation(
+                            Violation::new(
+                                class,
+                                format!("{text} with i=T{i}, u=T{u} ({}): response policy {} ; the response contains data of {} ; required at most {}", MODES[mi], pj(actual), whats.join(", "), pj(expected)),
+                                case.clone(),
+                            )
+                            .key("part", "documents")
+                            .key("via", via.join("+"))
+                            .key("aspect", aspects.join("+")),
+                        );
+                    } else if object_only && actual != expected {
+                        cx.violation(
+                            Violation::new(
+                                "policy-not-exact-on-object-selection",
+                                format!("{text} ({}): response policy {} but the combination of the hints of the selected object types and fields is {}", MODES[mi], pj(actual), pj(expected)),
+                                case.clone(),
+                            )
+                            .key("part", "documents"),
+                        );
+                    }
+                    if expected != NONE {
+                        cx.nontrivial(agv_engine::h64(&(text.as_str(), i, u)));
+                    }
+                    cx.sample_with(agv_engine::h64(&(text.as_str(), i, u, mi)), || {
+                        json!({"document": text, "world": {"i": format!("T{i}"), "u": format!("T{u}")}, "mode": MODES[mi], "response_policy": pj(actual), "reference_meet": pj(expected), "object_only": object_only})
+                    });
+                }
+            }
+        }
+    }
+}
+
+pub fn run(cx: &Cx) {
+    let max_nodes = cx.tier.pick(4, 5);
+    cx.rule(
+        "case = (document, runtime types behind the abstract fields, validation mode, selection order). Documents: every selection tree with <= N nodes (N = 4 quick, 5 thorough) over a derive schema whose \
+         7 object types x 8 fields and 7 Query fields carry every hint of {none, max_age 60/30/10, private, private+max_age 10, no_cache}, reached through object fields, an interface field and a union field; \
+         each selection set printed in canonical and in reversed order. Non-trivial = the reference meet of the contained data's hints is not the default policy. \
+         Plus all 10 policies, 100 pairs and 1000 triples of {public, private} x {0, 10, 30, 60, -1} through BatchResponse::cache_control.",
+    );
+    cx.assume("max_age = 0 means 'no max-age hint' (crate docs: default 0, merge treats 0 as neutral, value() prints nothing): a response policy without max-age is looser than data with a positive max-age");
+    cx.assume("an object contributes its type-level hint when at least one of its fields (including __typename) is present in the response; an empty object {} contributes nothing");
+    cx.assume("dynamic schemas carry no cache hints and are not enumerated; responses with field errors are not enumerated (all resolvers succeed)");
+    merge_laws(cx);
+    let schemas = schemas();
+    let mut docs: Vec<Vec<Sel>> = Vec::new();
+    let mut per_n = Vec::new();
+    for n in 1..=max_nodes {
+        let d = sets_exact(Scope::Q, n);
+        per_n.push(d.len());
+        docs.extend(d);
+    }
+    docs.par_iter().for_each(|d| check_doc(cx, &schemas, d));
+    cx.exhaustive(true);
+    cx.extra("max_selection_nodes", json!(max_nodes));
+    cx.extra("documents_per_node_count", json!(per_n));
+    cx.extra("documents", json!(docs.len()));
+    cx.extra("documents_object_only", json!(docs.iter().filter(|d| !mentions_abstract(d)).count()));
+}
+
+pub fn replay(case: &serde_json::Value) -> String {
+    if let Some(part) = case.get("part") {
+        let p = |v: &serde_json::Value| P { private: !v["public"].as_bool().unwrap_or(true), age: v["max_age"].as_i64().unwrap_or(0) as i32 };
+        let a = p(&case["a"]);
+        let b = p(&case["b"]);
+        let c = p(&case["c"]);
+        return format!(
+            "{part}: a={} b={} c={} | a·b={} b·a={} (a·b)·c={} a·(b·c)={} header(a)={:?}",
+            pj(a),
+            pj(b),
+            pj(c),
+            pj(batch(&[a, b])),
+            pj(batch(&[b, a])),
+            pj(batch(&[batch(&[a, b]), c])),
+            pj(batch(&[a, batch(&[b, c])])),
+            to_cc(a).value()
+        );
+    }
+    let doc = case["document"].as_str().unwrap_or("");
+    let world = World { i: case["world"]["i"].as_u64().unwrap_or(0) as usize, u: case["world"]["u"].as_u64().unwrap_or(0) as usize };
+    let mi = if case["mode"] == "fast" { 1 } else { 0 };
+    match run_doc(&schemas()[mi], doc, world) {
+        Ok(r) => format!("{doc} with i=T{}, u=T{} ({}) -> data {} policy {} header {:?}", world.i, world.u, MODES[mi], r.data, pj(from_cc(r.cache_control)), r.cache_control.value()),
+        Err(e) => format!("execution failed: {e}"),
+    }
+}
+
+fn main() {
+    agv_engine::driver::main("C20", "exploration", run, Some(replay))
+}
